@@ -130,7 +130,8 @@ instance (w : World) : Decidable (LinkLookupHarmless w) := by unfold LinkLookupH
 
 /-! ### status -/
 
-theorem cur_flags : cur = ⟨true, true, true, true, true, false, false, false, true⟩ := rfl
+theorem cur_flags : cur = ⟨true, true, true, true, true, false, false, false, true,
+    Gen.WorkTree.absentDropsIndex, Gen.WorkTree.forceUsesIndex⟩ := rfl
 
 theorem statMatches_self (s : StatKey) : statMatches s s = true := by
   simp [statMatches, statMatchesWith]
@@ -515,7 +516,7 @@ def fileOf (y : Entry) (o : StatKey × LinkRes) : WFile := ⟨y.kind, y.cid, o.1
 
 theorem transitionToAbsent_file {s : WT} {p : Path} {f : WFile} (hv : validPath p = true)
     (hview : lstatView s.wd p = .file f) :
-    transitionToAbsent s p = .ok ⟨s.wd.erase p, s.index.erase p⟩ := by
+    transitionToAbsent cur s p = .ok ⟨s.wd.erase p, s.index.erase p⟩ := by
   unfold transitionToAbsent
   simp [hv, hview]
 
@@ -560,25 +561,25 @@ def targetWd (a b : FMap Entry) (fA : FMap WFile) (obs : Obs) (p : Path) : Optio
   | none => none
   | some y => if a.get p = some y then fA.get p else (obs.get p).map (fileOf y)
 
-theorem applyChanges_one {obs : Obs} {s s' : WT} {c : Change} (h : applyChange obs s c = .ok s') :
-    applyChanges obs s [c] = (s', none) := by
+theorem applyChanges_one {obs : Obs} {s s' : WT} {c : Change} (h : applyChange cur obs s c = .ok s') :
+    applyChanges cur obs s [c] = (s', none) := by
   simp [applyChanges, h]
 
-theorem applyChanges_two {obs : Obs} {s s' s'' : WT} {c d : Change} (h : applyChange obs s c = .ok s')
-    (h' : applyChange obs s' d = .ok s'') :
-    applyChanges obs s [c, d] = (s'', none) := by
+theorem applyChanges_two {obs : Obs} {s s' s'' : WT} {c d : Change} (h : applyChange cur obs s c = .ok s')
+    (h' : applyChange cur obs s' d = .ok s'') :
+    applyChanges cur obs s [c, d] = (s'', none) := by
   simp [applyChanges, h, h']
 
 theorem applyChanges_append (obs : Obs) (s : WT) (c1 c2 : List Change) :
-    applyChanges obs s (c1 ++ c2) =
-      match applyChanges obs s c1 with
-      | (s', none) => applyChanges obs s' c2
+    applyChanges cur obs s (c1 ++ c2) =
+      match applyChanges cur obs s c1 with
+      | (s', none) => applyChanges cur obs s' c2
       | (s', some e) => (s', some e) := by
   induction c1 generalizing s with
   | nil => simp [applyChanges]
   | cons c r ih =>
     simp only [List.cons_append, applyChanges]
-    cases h : applyChange obs s c with
+    cases h : applyChange cur obs s c with
     | ok s1 => simp only [ih]
     | error e => simp
 
@@ -872,19 +873,19 @@ theorem applyDelsAt {a b : FMap Entry} {fA : FMap WFile} {obs : Obs} {s : WT} {p
     (hva : ∀ x, a.get p = some x → validPath p = true)
     (hfA1 : ∀ x, a.get p = some x → ∃ f, fA.get p = some f ∧ f.entry = x)
     (hwd : s.wd.get p = fA.get p) (hidx : s.index.get p = (fA.get p).map WFile.ientry) :
-    ∃ s', applyChanges obs s (delsAt a b p) = (s', none) ∧
+    ∃ s', applyChanges cur obs s (delsAt a b p) = (s', none) ∧
       s'.wd.get p = (if delP a b p then none else fA.get p) ∧
       s'.index.get p = (if delP a b p then none else (fA.get p).map WFile.ientry) ∧
       ∀ q, q ≠ p → s'.wd.get q = s.wd.get q ∧ s'.index.get q = s.index.get q := by
   have stay : delsAt a b p = [] → delP a b p = false →
-      ∃ s', applyChanges obs s (delsAt a b p) = (s', none) ∧
+      ∃ s', applyChanges cur obs s (delsAt a b p) = (s', none) ∧
       s'.wd.get p = (if delP a b p then none else fA.get p) ∧
       s'.index.get p = (if delP a b p then none else (fA.get p).map WFile.ientry) ∧
       ∀ q, q ≠ p → s'.wd.get q = s.wd.get q ∧ s'.index.get q = s.index.get q := by
     intro h1 h2
     exact ⟨s, by rw [h1]; rfl, by simp [h2, hwd], by simp [h2, hidx], fun q _ => ⟨rfl, rfl⟩⟩
   have go : ∀ x, a.get p = some x → delsAt a b p = [.delete p x] → delP a b p = true →
-      ∃ s', applyChanges obs s (delsAt a b p) = (s', none) ∧
+      ∃ s', applyChanges cur obs s (delsAt a b p) = (s', none) ∧
       s'.wd.get p = (if delP a b p then none else fA.get p) ∧
       s'.index.get p = (if delP a b p then none else (fA.get p).map WFile.ientry) ∧
       ∀ q, q ≠ p → s'.wd.get q = s.wd.get q ∧ s'.index.get q = s.index.get q := by
@@ -919,7 +920,7 @@ theorem applyDels {a b : FMap Entry} {fA : FMap WFile} {obs : Obs} (hwfa : TreeW
     (L : List Path) (hL : L.Nodup) (s : WT)
     (hsub : ∀ k, s.wd.get k = none ∨ s.wd.get k = fA.get k)
     (hA : ∀ p ∈ L, s.wd.get p = fA.get p ∧ s.index.get p = (fA.get p).map WFile.ientry) :
-    ∃ s', applyChanges obs s (L.flatMap (delsAt a b)) = (s', none) ∧
+    ∃ s', applyChanges cur obs s (L.flatMap (delsAt a b)) = (s', none) ∧
       (∀ p ∈ L, s'.wd.get p = (if delP a b p then none else fA.get p) ∧
         s'.index.get p = (if delP a b p then none else (fA.get p).map WFile.ientry)) ∧
       (∀ q, q ∉ L → s'.wd.get q = s.wd.get q ∧ s'.index.get q = s.index.get q) := by
@@ -970,7 +971,7 @@ theorem applyAddsAt {a b : FMap Entry} {fA : FMap WFile} {obs : Obs} {s : WT} {p
     (hfA1 : ∀ x, a.get p = some x → ∃ f, fA.get p = some f ∧ f.entry = x)
     (hwd : s.wd.get p = (if delP a b p then none else fA.get p))
     (hidx : s.index.get p = (if delP a b p then none else (fA.get p).map WFile.ientry)) :
-    ∃ s', applyChanges obs s (addsAt a b p) = (s', none) ∧
+    ∃ s', applyChanges cur obs s (addsAt a b p) = (s', none) ∧
       s'.wd.get p = targetWd a b fA obs p ∧
       s'.index.get p = (targetWd a b fA obs p).map WFile.ientry ∧
       ∀ q, q ≠ p → s'.wd.get q = s.wd.get q ∧ s'.index.get q = s.index.get q := by
@@ -981,7 +982,7 @@ theorem applyAddsAt {a b : FMap Entry} {fA : FMap WFile} {obs : Obs} {s : WT} {p
       fun q hq => ⟨FMap.get_put_ne _ _ hq, FMap.get_put_ne _ _ hq⟩⟩
   -- writing into an empty place
   have fresh : ∀ y, b.get p = some y → a.get p ≠ some y → s.wd.get p = none → addsAt a b p = [.add p y] →
-      ∃ s', applyChanges obs s (addsAt a b p) = (s', none) ∧
+      ∃ s', applyChanges cur obs s (addsAt a b p) = (s', none) ∧
       s'.wd.get p = targetWd a b fA obs p ∧
       s'.index.get p = (targetWd a b fA obs p).map WFile.ientry ∧
       ∀ q, q ≠ p → s'.wd.get q = s.wd.get q ∧ s'.index.get q = s.index.get q := by
@@ -1057,7 +1058,7 @@ theorem applyAdds {a b : FMap Entry} {fA : FMap WFile} {obs : Obs} (hwfb : TreeW
       s.index.get p = (if delP a b p then none else (fA.get p).map WFile.ientry))
     (hT : ∀ p, p ∉ L → s.wd.get p = targetWd a b fA obs p ∧
       s.index.get p = (targetWd a b fA obs p).map WFile.ientry) :
-    ∃ s', applyChanges obs s (L.flatMap (addsAt a b)) = (s', none) ∧
+    ∃ s', applyChanges cur obs s (L.flatMap (addsAt a b)) = (s', none) ∧
       ∀ p, s'.wd.get p = targetWd a b fA obs p ∧
         s'.index.get p = (targetWd a b fA obs p).map WFile.ientry := by
   -- where `b` has nothing, neither the first-phase state nor the target state has a file
